@@ -4,7 +4,7 @@
    hook-exported key sets of the two decoder tables). *)
 From V.lib Require Import Base.
 From V.c04 Require Import C04Model C04AsmModel C04ContainerProofs.
-From V.c03 Require Import C03Model C03Spec C03Registry C03Proofs C03CanonProofs C03LeafModel C03LeafProofs C03LeafBoxProofs C03LeafInstProofs C03StsdProofs.
+From V.c03 Require Import C03Model C03Spec C03Registry C03Proofs C03CanonProofs C03LeafModel C03LeafProofs C03LeafBoxProofs C03LeafInstProofs C03StsdProofs C03VseProofs.
 Open Scope N_scope.
 
 (* Encode to an io.Writer and EncodeSW to a slice writer: identical bytes or both fail, for every container tree and
@@ -176,6 +176,24 @@ Theorem C03_stsd_pair_agree_canonical : forall ld, leaf_ok ld -> forall nm vf cn
 Proof. exact stsd_pair_agree_canonical. Qed.
 Print Assumptions C03_stsd_pair_agree_canonical.
 
+(* ---- visual sample entry (avc1, hvc1, ...): DecodeVisualSampleEntry (readBoxBody, then the SR decoder on a private reader over
+   the body) vs DecodeVisualSampleEntrySR (on the caller's reader) ----
+   on every canonical payload (78 fixed bytes a ++ [cnl] ++ b with compressor-name length cnl <= 31, then canonical children),
+   wherever it sits and whatever follows: both accept with the same value v (same fields, same children), Size() = 8 + len *)
+Theorem C03_vse_pair_agree_canonical : forall ld, leaf_ok ld -> forall nm a b cnl kids,
+  length a = 42%nat -> length b = 35%nat -> (cnl <= 31)%N -> Forall (cwf ld) kids ->
+  (lenN ((a ++ [cnl] ++ b) ++ cencs kids) < 4294967288)%N ->
+  forall pre post cst cst2 fuel,
+  (zlen (pre ++ ((a ++ [cnl] ++ b) ++ cencs kids) ++ post) < two63)%Z ->
+  (zlen (((a ++ [cnl] ++ b) ++ cencs kids) ++ post) + 1 < Z.of_nat fuel)%Z ->
+  exists v, vs_kids v = map erase kids /\ vse_size v = (8 + lenN ((a ++ [cnl] ++ b) ++ cencs kids))%N /\
+    fst (vse_sr ld fuel (mkH nm (8 + lenN ((a ++ [cnl] ++ b) ++ cencs kids)) 8) 0
+           (mkS (mkR (pre ++ ((a ++ [cnl] ++ b) ++ cencs kids) ++ post) (zlen pre) false) cst)) = Ok v /\
+    fst (vse_r ld fuel (mkH nm (8 + lenN ((a ++ [cnl] ++ b) ++ cencs kids)) 8) 0
+           (mkI (pre ++ ((a ++ [cnl] ++ b) ++ cencs kids) ++ post) (lenN pre) cst2)) = Ok v.
+Proof. exact vse_pair_agree_canonical. Qed.
+Print Assumptions C03_vse_pair_agree_canonical.
+
 (* the two dispatch tables register the same box types (regenerated from /repo on every run) *)
 Theorem C03_registry : keys_decoders = keys_decoders_sr.
 Proof. exact registry_equal. Qed.
@@ -260,4 +278,16 @@ Proof.
     (split; [reflexivity|]); (split; [reflexivity|]); (split; [vm_compute; reflexivity|]); intros H; discriminate H.
 Qed.
 Example ex_stsd_val : stsd_val 0 2 ex_stsd_kids = mkStsd 0 0 2 [Leaf [122;122;122;122]%N 11; Leaf [97;98;99;100]%N 8].
+Proof. vm_compute. reflexivity. Qed.
+
+(* an avc1 entry: 78 fixed bytes (compressor name "ab"), one child: both model decoders, concretely *)
+Example ex_vse_fixed : list N := repeat 0%N 6 ++ [0;1]%N ++ repeat 0%N 16 ++ [1;64; 0;240; 0;72;0;0; 0;72;0;0; 0;0;0;0; 0;1]%N ++ [2]%N
+  ++ [97;98]%N ++ repeat 0%N 29 ++ [0;24; 255;255]%N.
+Example ex_vse_len : length ex_vse_fixed = 78%nat.
+Proof. reflexivity. Qed.
+Example ex_vse_box : entbox_sr (be4 (8 + 78 + 9) ++ name_avc1 ++ ex_vse_fixed ++ cenc (CLeaf name_free [5]%N))
+  = Ok (EVse (mkVse 1 320 240 4718592 4718592 1 [97;98]%N [Leaf name_free 9]), 95%Z, false).
+Proof. vm_compute. reflexivity. Qed.
+Example ex_vse_box_r : entbox_r (be4 (8 + 78 + 9) ++ name_avc1 ++ ex_vse_fixed ++ cenc (CLeaf name_free [5]%N))
+  = Ok (EVse (mkVse 1 320 240 4718592 4718592 1 [97;98]%N [Leaf name_free 9]), 95%N).
 Proof. vm_compute. reflexivity. Qed.
